@@ -193,6 +193,8 @@ struct Intruder {
     kind: usize,   // 0 ACK, 1 DATA, 2 ERROR, 3 OACK
     to_transfer: bool,
     position: usize,
+    /// the intruder sits on ANOTHER loopback address (127.0.0.2) with the SAME port number as the victim's client
+    twin: bool,
 }
 
 fn intruder_bytes(kind: usize) -> Vec<u8> {
@@ -243,7 +245,15 @@ fn run_one(srv: &Srv, cfg: &SrvCfg, scripts: &[Script], same_file: bool, order: 
         if it.to_transfer && (cls[0].done || victim_peer.is_none()) && victim_peer != Some(srv.addr) {
             return;
         }
-        let mut ic = Client::new(srv.addr);
+        let mut ic = if it.twin {
+            let local: SocketAddr = format!("127.0.0.2:{}", cls[0].c.local_port()).parse().unwrap();
+            match Client::bound(srv.addr, local) {
+                Some(c) => c,
+                None => return, // address/port not available here: the case is skipped, never judged
+            }
+        } else {
+            Client::new(srv.addr)
+        };
         let target = if it.to_transfer { victim_peer.unwrap_or(srv.addr) } else { srv.addr };
         let _ = ic.sock.send_to(&intruder_bytes(it.kind), target);
         if target == srv.addr {
@@ -462,6 +472,9 @@ pub fn cell(spec: &Value) -> Value {
         Ok(s) => s,
         Err(e) => return json!({"machinery_error": format!("server start: {e}")}),
     };
+    if spec["blocking"].as_bool().unwrap_or(false) {
+        return blocking_cell(spec, &cfg, &srv);
+    }
     let scripts: Vec<Script> = spec["scripts"].as_array().unwrap().iter().map(|s| Script::from(s.as_str().unwrap())).collect();
     let same_file = spec["same_file"].as_bool().unwrap_or(false);
     let intr_mode = spec["intruder"].as_str().unwrap_or("none"); // none | all
@@ -477,7 +490,15 @@ pub fn cell(spec: &Value) -> Value {
             for kind in 0..INTRUDER_KINDS {
                 for to_transfer in [false, true] {
                     for position in 0..=total_steps {
-                        intrs.push(Some(Intruder { kind, to_transfer, position }));
+                        intrs.push(Some(Intruder { kind, to_transfer, position, twin: false }));
+                    }
+                }
+            }
+            if cfg.single && !srv.addr.is_ipv6() {
+                // same port number, other address: routing must use the whole endpoint
+                for kind in 0..6 {
+                    for position in 0..=total_steps {
+                        intrs.push(Some(Intruder { kind, to_transfer: false, position, twin: true }));
                     }
                 }
             }
@@ -493,7 +514,7 @@ pub fn cell(spec: &Value) -> Value {
             c.nontrivial += 1;
             outcomes.insert(fnv64(format!("{:?}{}", order, r.summary).as_bytes()));
             if c.samples.is_empty() && oi == orders.len() / 2 {
-                c.samples.push(json!({"srv": cfg.brief(), "scripts": scripts.iter().map(|s| s.name()).collect::<Vec<_>>(), "interleaving": order, "intruder": it.as_ref().map(|i| format!("{} to {} at position {}", rc::describe(&intruder_bytes(i.kind)), if i.to_transfer { "victim's transfer port" } else { "listening port" }, i.position)), "overlapped": overlapped}));
+                c.samples.push(json!({"srv": cfg.brief(), "scripts": scripts.iter().map(|s| s.name()).collect::<Vec<_>>(), "interleaving": order, "intruder": it.as_ref().map(|i| format!("{} to {} at position {}", rc::describe(&intruder_bytes(i.kind)), if i.to_transfer { "victim's transfer port" } else if i.twin { "listening port, from 127.0.0.2 with the victim's port number" } else { "listening port" }, i.position)), "overlapped": overlapped}));
             }
             for (clause, what) in r.viol {
                 c.violations.push(Violation {
@@ -502,7 +523,7 @@ pub fn cell(spec: &Value) -> Value {
                     facts: facts(&[("single", json!(cfg.single))]),
                     what: format!("[{}] scripts {:?}{} interleaving {:?} intruder {:?}: {}", cfg.brief(), scripts.iter().map(|s| s.name()).collect::<Vec<_>>(), if same_file { " (same file)" } else { "" }, order, it, what),
                     replay: json!({"engine": "e2_c12", "srv": cfg.to_json(), "scripts": scripts.iter().map(|s| s.name()).collect::<Vec<_>>(), "same_file": same_file, "order": order, "overlapped": overlapped,
-                        "intruder": it.as_ref().map(|i| json!({"kind": i.kind, "to_transfer": i.to_transfer, "position": i.position}))}),
+                        "intruder": it.as_ref().map(|i| json!({"kind": i.kind, "to_transfer": i.to_transfer, "position": i.position, "twin": i.twin}))}),
                     weight: order.len() as u64 * 10 + it.is_some() as u64,
                 });
             }
@@ -519,6 +540,119 @@ pub fn cell(spec: &Value) -> Value {
     }
     c.add_extra("distinct_traces", outcomes.len() as u64);
     c.trim_violations(3);
+    c.to_json()
+}
+
+/// A request whose file operation BLOCKS (a named pipe without a writer in the served directory) must stall only itself:
+/// at every position of a victim's 2-block download another endpoint asks for the pipe; the victim's transfer and a new
+/// request by a third endpoint must go on as if nothing had happened. Afterwards the pipe is released and the blocked
+/// transfer is brought to its end.
+fn blocking_cell(spec: &Value, cfg: &SrvCfg, srv: &Srv) -> Value {
+    use std::os::unix::ffi::OsStrExt;
+    let mut c = Counters::default();
+    let fifo_name = format!("pipe_{}", std::process::id());
+    let fifo_path = format!("{}/{}", srv.send_dir, fifo_name);
+    let _ = std::fs::remove_file(&fifo_path);
+    let cpath = std::ffi::CString::new(std::path::Path::new(&fifo_path).as_os_str().as_bytes()).unwrap();
+    if unsafe { libc::mkfifo(cpath.as_ptr(), 0o644) } != 0 {
+        return json!({"machinery_error": "mkfifo failed"});
+    }
+    let vbody = content(1000, 771);
+    let wbody = content(100, 772);
+    let _ = std::fs::write(format!("{}/blk_v", srv.send_dir), &vbody);
+    let _ = std::fs::write(format!("{}/blk_w", srv.send_dir), &wbody);
+    let wait = Duration::from_millis(1500);
+    for position in 0..=3usize {
+        let mut viol: Vec<(String, String)> = vec![];
+        let mut v = Client::new(srv.addr);
+        v.unguarded = true;
+        let mut intr = Client::new(srv.addr);
+        intr.unguarded = true;
+        let mut got: Vec<u8> = vec![];
+        let mut v_failed: Option<String> = None;
+        let mut w_result: Option<String> = None;
+        for step in 0..=3usize {
+            if step == position {
+                intr.to_server(&rc::request(false, fifo_name.as_bytes(), &[]));
+                // a third endpoint's new request right after it
+                let mut w = Client::new(srv.addr);
+                w.unguarded = true;
+                w.to_server(&rc::request(false, b"blk_w", &[]));
+                match w.recv_wait(wait).map(|(b, _)| rc::decode(&b)) {
+                    Some(Ok(RPacket::Data { block: 1, data })) if data == wbody => {
+                        w.to_peer(&rc::ack(1));
+                    }
+                    other => w_result = Some(format!("{:?}", other.map(|r| r.map(|p| format!("{:?}", p).chars().take(60).collect::<String>())))),
+                }
+            }
+            if v_failed.is_some() {
+                continue;
+            }
+            match step {
+                0 => v.to_server(&rc::request(false, b"blk_v", &[])),
+                1 | 2 => {
+                    match v.recv_wait(wait).map(|(b, _)| rc::decode(&b)) {
+                        Some(Ok(RPacket::Data { block, data })) if block as usize == step => {
+                            got.extend_from_slice(&data);
+                            v.to_peer(&rc::ack(block));
+                        }
+                        other => v_failed = Some(format!("waiting for DATA({step}): got {:?}", other.map(|r| r.is_ok()))),
+                    }
+                }
+                _ => {}
+            }
+        }
+        c.executions += 1;
+        c.states += 1;
+        c.transitions += 6;
+        c.nontrivial += 1;
+        if v_failed.is_some() || got != vbody {
+            viol.push(("stalled-by-blocking-request".into(), format!("a 2-block download stalled or was corrupted ({:?}, {} of {} bytes) when another endpoint requested a named pipe at position {position}", v_failed, got.len(), vbody.len())));
+        }
+        if let Some(wr) = w_result {
+            viol.push(("listener-stalled-by-blocking-request".into(), format!("a new request by a third endpoint right after the request for a named pipe (position {position}) was not served: {wr}")));
+        }
+        // release the pipe: a writer that opens and closes it makes the blocked open() return and the read see end of file
+        let t0 = Instant::now();
+        let mut released = false;
+        while t0.elapsed() < Duration::from_secs(2) && !released {
+            let fd = unsafe { libc::open(cpath.as_ptr(), libc::O_WRONLY | libc::O_NONBLOCK) };
+            if fd >= 0 {
+                unsafe { libc::close(fd) };
+                released = true;
+            } else {
+                std::thread::sleep(Duration::from_millis(2));
+            }
+        }
+        // the formerly blocked transfer now serves an empty file: acknowledge it so that it ends
+        if let Some((b, _)) = intr.recv_wait(wait) {
+            if let Ok(RPacket::Data { block, .. }) = rc::decode(&b) {
+                intr.to_peer(&rc::ack(block));
+            }
+        }
+        let t1 = Instant::now();
+        while workers_alive() && t1.elapsed() < Duration::from_secs(3) {
+            // (a released reader that found no writer yet re-blocks: open and close once more)
+            let fd = unsafe { libc::open(cpath.as_ptr(), libc::O_WRONLY | libc::O_NONBLOCK) };
+            if fd >= 0 {
+                unsafe { libc::close(fd) };
+            }
+            if let Some((b, _)) = intr.recv_wait(Duration::from_millis(20)) {
+                if let Ok(RPacket::Data { block, .. }) = rc::decode(&b) {
+                    intr.to_peer(&rc::ack(block));
+                }
+            }
+        }
+        c.trace_hashes.insert(fnv64(format!("blocking{position}{}", cfg.single).as_bytes()));
+        for (clause, what) in viol {
+            c.violations.push(Violation { property: "C12".into(), clause, facts: facts(&[("single", json!(cfg.single))]), what: format!("[{}] {}", cfg.brief(), what), replay: json!({"engine": "e2_c12", "spec": spec}), weight: 30 + position as u64 });
+        }
+    }
+    let _ = std::fs::remove_file(&fifo_path);
+    if !quiesce() {
+        c.machinery_errors.push("server not quiescent at the end of the blocking-request cell".into());
+    }
+    c.samples.push(json!({"srv": cfg.brief(), "family": "request for a named pipe (blocking open) at every position of another client's download"}));
     c.to_json()
 }
 
@@ -547,6 +681,7 @@ pub fn check(tier: Tier) -> Outcome {
                 }
             }
         }
+        cells.push(json!({"srv": s.to_json(), "blocking": true}));
         // K = 3 with the short scripts
         let three = [Script::D1, Script::U1, Script::D2];
         let triples: Vec<[Script; 3]> = if tier == Tier::Quick { vec![[Script::D1, Script::U1, Script::D1]] } else { vec![[three[0], three[1], three[0]], [three[0], three[0], three[0]], [three[1], three[1], three[0]], [three[0], three[1], three[2]]] };
@@ -561,7 +696,7 @@ pub fn check(tier: Tier) -> Outcome {
     let res = run_cells("c12", cells, &crate::pool_opts(tier));
     let mut out = Outcome::new("C12", "model_checking");
     out.absorb(res, n);
-    out.rule = "client scripts (each step = one datagram and its awaited replies): D2 = 2-block lock-step download, Dw = download with blksize 8 / windowsize 2, U2 = 2-block upload, Ub = upload with blksize 1024, D1/U1 = 1-block transfers. All interleavings of the steps of K = 2 scripts for all 10 unordered pairs (same-file and different-file downloads) and of K = 3 short scripts, in single-port and multi-port mode; plus one intruder datagram (ACK, DATA, ERROR, OACK from a foreign socket, to the listening port or to the victim's transfer port) inserted at every position of every interleaving; thorough additionally re-issues adjacent steps of different clients as overlapped pairs. Oracle: per-client byte identity, source-port discipline (single-port: only the listening port; multi-port: one distinct ephemeral port per transfer), ERROR to the intruder, no leak, no extra datagrams. Every execution is non-trivial (completes >= 2 transfers). states = executions, transitions = datagrams sent.".into();
+    out.rule = "client scripts (each step = one datagram and its awaited replies): D2 = 2-block lock-step download, Dw = download with blksize 8 / windowsize 2, U2 = 2-block upload, Ub = upload with blksize 1024, D1/U1 = 1-block transfers. All interleavings of the steps of K = 2 scripts for all 10 unordered pairs (same-file and different-file downloads) and of K = 3 short scripts, in single-port and multi-port mode; plus one intruder datagram (ACK, DATA, ERROR, OACK, oversize and truncated datagrams from a foreign socket, to the listening port or to the victim's transfer port; in single-port mode also from another loopback address that uses the victim's own port number) inserted at every position of every interleaving; thorough additionally re-issues adjacent steps of different clients as overlapped pairs; plus a request whose file operation blocks (named pipe) at every position of another client's download, with a third endpoint's new request right behind it. Oracle: per-client byte identity, source-port discipline (single-port: only the listening port; multi-port: one distinct ephemeral port per transfer), ERROR to the intruder, no leak, no extra datagrams. Every execution is non-trivial (completes >= 2 transfers). states = executions, transitions = datagrams sent.".into();
     out.assumptions = vec!["the server's internal thread schedule is the OS's; the driver keeps one datagram in flight (two for overlapped pairs)".into()];
     out
 }
@@ -574,7 +709,7 @@ pub fn replay(v: &Value) -> String {
     };
     let scripts: Vec<Script> = v["scripts"].as_array().unwrap().iter().map(|s| Script::from(s.as_str().unwrap())).collect();
     let order: Vec<usize> = v["order"].as_array().unwrap().iter().map(|x| x.as_u64().unwrap() as usize).collect();
-    let it = v["intruder"].as_object().map(|o| Intruder { kind: o["kind"].as_u64().unwrap() as usize, to_transfer: o["to_transfer"].as_bool().unwrap(), position: o["position"].as_u64().unwrap() as usize });
+    let it = v["intruder"].as_object().map(|o| Intruder { kind: o["kind"].as_u64().unwrap() as usize, to_transfer: o["to_transfer"].as_bool().unwrap(), position: o["position"].as_u64().unwrap() as usize, twin: o["twin"].as_bool().unwrap_or(false) });
     let r = run_one(&srv, &cfg, &scripts, v["same_file"].as_bool().unwrap_or(false), &order, it.as_ref(), v["overlapped"].as_bool().unwrap_or(false));
     format!("violations: {:?}", r.viol)
 }
